@@ -8,8 +8,7 @@ import readmodel as rm
 
 PROP = "C19"
 MODEL_TARGETS = ["Corr/ReadShow.vo"]
-THEOREMS = ["C19_total", "C19_junk_adds_at_most_one", "C19_genuine_subsequence", "C19_fields_frame", "C19_only_header_error",
-            "C19_error_names_line"]
+THEOREMS = ["C19_total", "C19_total_ok", "C19_read_total", "C19_unparsable_skipped", "C19_parsable_adds_one", "C19_junk_adds_at_most_one", "C19_genuine_subsequence", "C19_genuine_subsequence_flag", "C19_fields_frame", "C19_only_header_error", "C19_error_names_line", "C19_read_only_header_error", "C19_flag_irrelevant_when_clean", "C19_sect_append_frame", "C19_steering_lookup", "C19_steering_frame", "C19_data_reads_only", "C19_data_frame", "C19_read_ok", "C19_frame_meaning"]
 ASSUMPTIONS = [
     "an exception raised from inside CPython's re (recursion/time limits on pathological lines) is not in the model; exercised by the very long lines only",
     "junk lines do not start with '~' and, when they parse, do not name VERS/WRAP/DLM/NULL (as the property states)",
@@ -37,7 +36,10 @@ def junk_line(rng):
     if k < 0.85:
         return rng.choice(["no delimiters at all", "just text", "12345", "-----", "=====", "STRT", "COMP WELL", "a b c d", "(null)",
                            "END", "\\", "???", "1 2 3 4"])
-    return rng.choice(["JUNK.M  12 : looks like an item", "Q . : ", "X.Y.Z : w", "K : v", "A.B C D", ".5", "5.", ". . .", ": : :"])
+    return rng.choice(["JUNK.M  12 : looks like an item", "Q . : ", "X.Y.Z : w", "K : v", "A.B C D", ".5", "5.", ". . .", ": : :",
+                       "SERIAL. 12345678901234567890 : twenty digits", "1:9999999999999999999999", ". 7777777777777777777777777",
+                       "BIG. -99999999999999999999999999999 : x", "E. 1e999 : overflow", "H. 0x1F : hex", "U. 1_000 : underscore",
+                       "N. nan : not a number", "I. -inf : infinity", "L." + "9" * 400 + " : very long number"])
 
 
 def is_allowed_junk(line):
